@@ -1,15 +1,287 @@
 /-
-  FalconModel.Isa.A64Lift — Lean mirror of what falcon's AArch64 lifter emits (option (A) of LIFTER_BRIEF).
+  FalconModel.Isa.A64Lift — option (A) of LIFTER_BRIEF: the Lean MIRROR of what falcon's AArch64 lifter
+  emits, as a function of the raw word and the instruction address, for the classes
+
+    add/adds/sub/subs (immediate) and (shifted register), incl. the MOV (to/from SP) alias,
+    mov (register) [ORR alias], mov (wide immediate / inverted wide immediate) [MOVZ / MOVN aliases], nop,
+    ldr/ldrb/ldrh/ldrsb/ldrsh/ldrsw/str/strb/strh (integer) with unsigned offset, unscaled offset,
+    post-index and pre-index,
+    b, bl, b.cond, cbz/cbnz, tbz/tbnz, br, blr, ret.
+
+  It mirrors bad64's choice of mnemonic (the dispatcher of lib/translator/aarch64/mod.rs sees aliases:
+  `cmp`/`cmn`/`neg`/`negs` are rejected, `mov` is accepted) and then `semantics.rs` line by line:
+  `AArch64Register::get/set` (W views truncate / zero-extend, register 31 = `xzr` constant zero or `sp`),
+  `operand_load` (immediates with `lsl #12` as an IL shift, shifted registers), `mem_operand_address` with
+  its write-back side effect applied last, the flag expressions of `adds`/`subs` (flags first, then the
+  destination — since commit 78c87ba), and the successors of the terminators.
+
+  `lift w addr = none`: the word is outside these classes or the lifter rejects it.  The driver compares
+  `lift w addr` with falcon's dumped `BlockTranslationResult` SYNTACTICALLY on every case; any difference
+  is reported as a broken correspondence (`MIRROR-DIFF`).
 -/
 import FalconModel.Lift
+import FalconModel.Isa.A64
 
 namespace Falcon
 namespace A64Lift
+open A64 (fld bit)
+
+/-! ### registers (`register.rs`) -/
+
+def xName (i : Nat) : String := "x" ++ toString i
+
+def sc (name : String) (bits : Nat) : Scalar := { name := name, bits := bits }
+
+/-- name of the 64-bit scalar behind register number `n` when 31 means the zero register (as a destination) -/
+def zName (n : Nat) : String := if n = 31 then "xzr" else xName n
+
+/-- name of the 64-bit scalar behind register number `n` when 31 means SP -/
+def sName (n : Nat) : String := if n = 31 then "sp" else xName n
+
+def k (v bits : Nat) : Expr := .const ⟨bits, v⟩
+
+/-- `get()` of Xn / Wn with 31 = XZR / WZR -/
+def rz (N n : Nat) : Expr :=
+  if n = 31 then k 0 N
+  else if N = 64 then .scalar (sc (xName n) 64) else .ext .trun N (.scalar (sc (xName n) 64))
+
+/-- `get()` of Xn|SP / Wn|WSP -/
+def rs (N n : Nat) : Expr :=
+  if N = 64 then .scalar (sc (sName n) 64) else .ext .trun N (.scalar (sc (sName n) 64))
+
+/-- `set()`: the full register is assigned, a short value is zero-extended -/
+def widen (N : Nat) (e : Expr) : Expr := if N = 64 then e else .ext .zext 64 e
+
+def setZ (N d : Nat) (e : Expr) : Op := .assign (sc (zName d) 64) (widen N e)
+def setS (N d : Nat) (e : Expr) : Op := .assign (sc (sName d) 64) (widen N e)
+
+def temp (addr bits : Nat) : Scalar := sc ("temp_0x" ++ String.ofList ((Nat.toDigits 16 addr).map Char.toUpper)) bits
+
+/-! ### graphs -/
+
+def mkInstrs (addr : Nat) : Nat → List Op → List Instr
+  | _, [] => []
+  | i, op :: rest => { index := i, addr := some addr, op := op } :: mkInstrs addr (i + 1) rest
+
+/-- the one-block instruction graph every supported instruction gets -/
+def oneBlock (addr : Nat) (ops : List Op) : Function :=
+  { addr := addr
+    cfg := { blocks := [{ index := 0, nextInstr := ops.length, instrs := mkInstrs addr 0 ops }]
+             edges := [], entry := some 0, exit := some 0, nextIndex := 1, nextTemp := 0 } }
+
+/-- a non-terminating instruction: the block falls through to `addr + 4` -/
+def straight (addr : Nat) (ops : List Op) : BTR :=
+  { addr := addr, length := 4, instrs := [oneBlock addr ops], succs := [(addr + 4, none)] }
+
+/-- a terminating instruction: `length` stays 0, the successors are the semantics' -/
+def terminator (addr : Nat) (ops : List Op) (succs : List (Nat × Option Expr)) : BTR :=
+  { addr := addr, length := 0, instrs := [oneBlock addr ops], succs := succs }
+
+/-! ### add / sub -/
+
+/-- the four flag assignments of `adds` / `subs` (`op` = .add / .sub) -/
+def flagOps (N : Nat) (op : BinOp) (l r : Expr) : List Op :=
+  let res := Expr.bin op l r
+  [ .assign (sc "n" 1) (.bin .cmplts res (k 0 N)),
+    .assign (sc "z" 1) (.bin .cmpeq res (k 0 N)),
+    .assign (sc "c" 1) (.bin .cmpneq (.ext .zext 72 res) (.bin op (.ext .zext 72 l) (.ext .zext 72 r))),
+    .assign (sc "v" 1) (.bin .cmpneq (.ext .sext 72 res) (.bin op (.ext .sext 72 l) (.ext .sext 72 r))) ]
+
+def addSubImm (w : BitVec 32) (addr : Nat) : Option BTR :=
+  let N := if bit w 31 then 64 else 32
+  let sub := bit w 30
+  let s := bit w 29
+  let sh := bit w 22
+  let imm12 := fld w 21 10
+  let n := fld w 9 5
+  let d := fld w 4 0
+  if s ∧ d = 31 then none                                  -- cmn / cmp
+  else if !sub ∧ !s ∧ !sh ∧ imm12 = 0 ∧ (d = 31 ∨ n = 31) then
+    some (straight addr [setS N d (rs N n)])               -- mov (to/from SP)
+  else
+    let op : BinOp := if sub then .sub else .add
+    let l := rs N n
+    let r := if sh then Expr.bin .shl (k imm12 N) (k 12 N) else k imm12 N
+    if s then some (straight addr (flagOps N op l r ++ [setZ N d (.bin op l r)]))
+    else some (straight addr [setS N d (.bin op l r)])
+
+/-- `shift()` for LSL/LSR/ASR/ROR applied to a register value -/
+def shifted (N : Nat) (v : Expr) (shift amount : Nat) : Expr :=
+  match shift with
+  | 0 => if amount = 0 then v else .bin .shl v (k amount N)
+  | 1 => .bin .shr v (k amount N)
+  | 2 => .bin .ashr v (k amount N)
+  | _ => .bin .or (.bin .shl v (.bin .sub (k N N) (k amount N))) (.bin .shr v (k amount N))
+
+def addSubShift (w : BitVec 32) (addr : Nat) : Option BTR :=
+  let N := if bit w 31 then 64 else 32
+  let sub := bit w 30
+  let s := bit w 29
+  let shift := fld w 23 22
+  let imm6 := fld w 15 10
+  let m := fld w 20 16
+  let n := fld w 9 5
+  let d := fld w 4 0
+  if shift = 3 ∨ (N = 32 ∧ imm6 ≥ 32) then none
+  else if s ∧ d = 31 then none                             -- cmn / cmp
+  else if sub ∧ n = 31 then none                           -- neg / negs
+  else
+    let op : BinOp := if sub then .sub else .add
+    let l := rz N n
+    let r := shifted N (rz N m) shift imm6
+    if s then some (straight addr (flagOps N op l r ++ [setZ N d (.bin op l r)]))
+    else some (straight addr [setZ N d (.bin op l r)])
+
+/-! ### mov -/
+
+/-- ORR (shifted register) with Rn = 31, no shift: `mov Rd, Rm` -/
+def movReg (w : BitVec 32) (addr : Nat) : Option BTR :=
+  let N := if bit w 31 then 64 else 32
+  if fld w 30 29 = 1 ∧ !bit w 21 ∧ fld w 23 22 = 0 ∧ fld w 15 10 = 0 ∧ fld w 9 5 = 31 then
+    some (straight addr [setZ N (fld w 4 0) (rz N (fld w 20 16))])
+  else none
+
+/-- MOVZ / MOVN when bad64 prints them as `mov` -/
+def movWide (w : BitVec 32) (addr : Nat) : Option BTR :=
+  let N := if bit w 31 then 64 else 32
+  let opc := fld w 30 29
+  let hw := fld w 22 21
+  let imm16 := fld w 20 5
+  let d := fld w 4 0
+  if N = 32 ∧ hw ≥ 2 then none
+  else if imm16 = 0 ∧ hw ≠ 0 then none                     -- stays movz / movn
+  else if opc = 2 then some (straight addr [setZ N d (k (imm16 <<< (16 * hw)) N)])
+  else if opc = 0 then
+    if N = 32 ∧ imm16 = 0xffff then none                   -- stays movn
+    else some (straight addr [setZ N d (k (2 ^ N - 1 - (imm16 <<< (16 * hw))) N)])
+  else none
+
+/-! ### loads and stores (integer, immediate forms) -/
+
+/-- `mem_operand_address`: (address expression, write-back) for the immediate addressing modes.
+    mode: 4 = unsigned offset (byte offset given), 0 = unscaled, 1 = post-index, 3 = pre-index -/
+def memOperand (mode n off : Nat) : Expr × List Op :=
+  let base := Expr.scalar (sc (sName n) 64)
+  let indexed := Expr.bin .add base (k off 64)
+  match mode with
+  | 1 => (base, [.assign (sc (sName n) 64) indexed])
+  | 3 => (indexed, [.assign (sc (sName n) 64) indexed])
+  | _ => (indexed, [])
+
+def ldstImm (w : BitVec 32) (addr : Nat) : Option BTR :=
+  let size := fld w 31 30
+  let opc := fld w 23 22
+  let n := fld w 9 5
+  let t := fld w 4 0
+  if bit w 26 then none
+  else
+    let unsignedOff := fld w 25 24 = 1
+    let mode := if unsignedOff then 4 else fld w 11 10
+    if ¬ unsignedOff ∧ (fld w 25 24 ≠ 0 ∨ bit w 21 ∨ mode = 2) then none
+    else
+      let off := if unsignedOff then fld w 21 10 <<< size
+                 else (A64.sext64 (fld w 20 12) 9 0).toNat
+      let (address, wb) := memOperand mode n off
+      let bits := 8 <<< size
+      match A64.decodeSizeOpc size opc with
+      | none => none
+      | some (.prefetch, _, _) => if mode = 4 ∨ mode = 0 then some (straight addr [.nop]) else none
+      | some (.store, _, regsize) =>
+        -- str: the register at its own width; strb/strh: the W register truncated
+        let v := if size ≥ 2 then rz regsize t else .ext .trun bits (rz 32 t)
+        some (straight addr ([.store address v] ++ wb))
+      | some (.load, signed, regsize) =>
+        let tmp := temp addr bits
+        let v := if signed then Expr.ext .sext regsize (.scalar tmp) else .scalar tmp
+        let width := if signed then regsize else bits
+        some (straight addr ([.load tmp address, setZ width t v] ++ wb))
+
+/-! ### branches -/
+
+def target (addr : Nat) (imm bits : Nat) : Nat := (BitVec.ofNat 64 addr + A64.sext64 imm bits 2).toNat
+
+def flagE (n : String) : Expr := .scalar (sc n 1)
+def notE (e : Expr) : Expr := .bin .cmpneq e (k 1 1)
+
+def condExpr (c : Nat) : Expr :=
+  match c with
+  | 0 => flagE "z"
+  | 1 => flagE "c"
+  | 2 => flagE "n"
+  | 3 => flagE "v"
+  | 4 => .bin .and (flagE "c") (notE (flagE "z"))
+  | 5 => .bin .cmpeq (flagE "n") (flagE "v")
+  | _ => .bin .and (.bin .cmpeq (flagE "n") (flagE "v")) (notE (flagE "z"))
+
+def branches (w : BitVec 32) (addr : Nat) : Option BTR :=
+  if fld w 30 26 = 0b00101 then
+    let t := target addr (fld w 25 0) 26
+    if bit w 31 then
+      some (straight addr [.assign (sc "x30" 64) (k ((addr + 4) % 2 ^ 64) 64), .branch (k t 64)])
+    else some (terminator addr [] [(t, none)])
+  else if fld w 31 25 = 0b0101010 then
+    if bit w 24 ∨ bit w 4 then none
+    else
+      let t := target addr (fld w 23 5) 19
+      let cond := fld w 3 0
+      if cond / 2 = 7 then some (terminator addr [] [(t, none)])
+      else
+        let ct := condExpr (cond / 2)
+        let cf := notE ct
+        if cond % 2 = 1 then some (terminator addr [] [(t, some cf), (addr + 4, some ct)])
+        else some (terminator addr [] [(t, some ct), (addr + 4, some cf)])
+  else if fld w 30 25 = 0b011010 then
+    let N := if bit w 31 then 64 else 32
+    let t := target addr (fld w 23 5) 19
+    let v := rz N (fld w 4 0)
+    let ne := Expr.bin .cmpneq v (k 0 N)
+    let eq := Expr.bin .cmpeq v (k 0 N)
+    if bit w 24 then some (terminator addr [] [(t, some ne), (addr + 4, some eq)])
+    else some (terminator addr [] [(t, some eq), (addr + 4, some ne)])
+  else if fld w 30 25 = 0b011011 then
+    let N := if bit w 31 then 64 else 32
+    let t := target addr (fld w 18 5) 14
+    let bitpos := fld w 31 31 * 32 + fld w 23 19
+    let v := Expr.bin .and (rz N (fld w 4 0)) (k (2 ^ bitpos) N)
+    let ne := Expr.bin .cmpneq v (k 0 N)
+    let eq := Expr.bin .cmpeq v (k 0 N)
+    if bit w 24 then some (terminator addr [] [(t, some ne), (addr + 4, some eq)])
+    else some (terminator addr [] [(t, some eq), (addr + 4, some ne)])
+  else if fld w 31 25 = 0b1101011 then
+    if fld w 20 16 ≠ 31 ∨ fld w 15 10 ≠ 0 ∨ fld w 4 0 ≠ 0 then none
+    else
+      let n := fld w 9 5
+      match fld w 24 21 with
+      | 0 => some (terminator addr [.branch (rz 64 n)] [])
+      | 1 =>
+        let tmp := temp addr 64
+        some (straight addr [.assign tmp (rz 64 n), .assign (sc "x30" 64) (k ((addr + 4) % 2 ^ 64) 64),
+                             .branch (.scalar tmp)])
+      | 2 => some (terminator addr [.branch (rz 64 n)] [])
+      | _ => none
+  else none
+
+/-! ### the mirror -/
+
+def lift (w : BitVec 32) (addr : Nat) : Option BTR :=
+  if w.toNat = 0xd503201f then some (straight addr [.nop])
+  else if fld w 28 23 = 0b100010 then addSubImm w addr
+  else if fld w 28 24 = 0b01011 ∧ !bit w 21 then addSubShift w addr
+  else if fld w 28 24 = 0b01010 then movReg w addr
+  else if fld w 28 23 = 0b100101 then movWide w addr
+  else if fld w 29 27 = 0b111 ∧ !bit w 25 then ldstImm w addr
+  else branches w addr
+
+/-- does the mirror cover this word?  (used by the driver: `none` from `lift` on a covered word means
+    "the lifter rejects it") -/
+def covered (w : BitVec 32) : Bool :=
+  w.toNat = 0xd503201f ∨ fld w 28 23 = 0b100010 ∨ (fld w 28 24 = 0b01011 ∧ !bit w 21) ∨ fld w 28 24 = 0b01010 ∨
+  fld w 28 23 = 0b100101 ∨ (fld w 29 27 = 0b111 ∧ !bit w 25 ∧ !bit w 26 ∧ (fld w 25 24 = 1 ∨ !bit w 21)) ∨
+  fld w 30 26 = 0b00101 ∨ fld w 31 25 = 0b0101010 ∨ fld w 30 25 = 0b011010 ∨ fld w 30 25 = 0b011011 ∨
+  fld w 31 25 = 0b1101011
 
 def btrEq (a b : BTR) : Bool :=
   a.addr == b.addr && a.length == b.length && decide (a.instrs = b.instrs) && decide (a.succs = b.succs)
-
-def lift (_w : BitVec 32) (_addr : Nat) : Option BTR := none
 
 end A64Lift
 end Falcon
